@@ -170,9 +170,21 @@ struct SwapOutcome {
   std::string raw;        // returned value, for the case description
 };
 
+// The comparators handed to a chain matrix without stored barcode are copied/swapped along with the matrix, so they must
+// not be tied to one driver: they go through this hub to whichever driver is performing the current operation.
+struct CmpHub {
+  void* current = nullptr;
+};
+// the friend swap(Matrix&, Matrix&), found by argument dependent lookup (Driver has a member called swap)
+template <class M>
+void adl_swap(M& a, M& b) {
+  swap(a, b);
+}
+
 template <class O>
 struct Driver {
   typedef Matrix<O> M;
+  std::shared_ptr<CmpHub> hub;
   static constexpr bool ru = O::is_of_boundary_type;
   static constexpr bool bar = O::has_column_pairings;
   static constexpr bool rem = O::has_removable_columns;
@@ -204,6 +216,43 @@ struct Driver {
   // the vine swaps index with positions without ever growing it
   // known finding C06-ru-explicit-id-u-rows: while it is excluded, row IDs of an RU matrix are kept equal to positions
   bool rows_are_positions = false;
+  // narrower form of the same exclusion (option sets without removable columns): explicit IDs are used, the initial
+  // cells get ID = position, gaps only appear with later insertions, and no transposition touches a position whose row
+  // ID differs from it
+  bool aligned_build = false;
+  bool swap_rows_aligned(int i) const { return !ru || (rid[size_t(i)] == U(i) && rid[size_t(i) + 1] == U(i + 1)); }
+
+  // ------------------------------------------------------------------------------------ copies, assignments, swap
+  void adopt(const Driver& o) {  // this matrix now has the logical content of o's
+    cid = o.cid;
+    rid = o.rid;
+    mat = o.mat;
+    max_id = o.max_id;
+    any_id = o.any_id;
+    inserted = o.inserted;
+    pmap = o.pmap;
+    explicit_ids = o.explicit_ids;
+    tainted = o.tainted;
+    stale_u = o.stale_u;
+  }
+  // friend swap(Matrix&, Matrix&): afterwards each driver owns the other C++ object, which holds its own old content
+  static void swap_matrices(Driver& a, Driver& b) {
+    adl_swap(*a.m, *b.m);
+    a.m.swap(b.m);
+  }
+  void copy_assign_from(const Driver& o) {
+    *m = *o.m;
+    adopt(o);
+  }
+  void move_assign_from_copy_of(const Driver& o) {
+    M tmp(*o.m);
+    *m = std::move(tmp);
+    adopt(o);
+  }
+  void copy_construct_from(const Driver& o) {
+    m.reset(new M(*o.m));
+    adopt(o);
+  }
   bool can_insert_at_all() const {
     if (!(ru && rows_are_positions)) return true;
     for (U x : cid)
@@ -274,7 +323,8 @@ struct Driver {
   bool cmp_documented = true;  // arguments are PosIdx (as documented) / MatIdx resolved through get_pivot
   std::string cmp_problem;
 
-  Driver(vf::Ctx& c, const std::string& nm, bool expl) : ctx(c), name(nm), explicit_ids(expl) {}
+  Driver(vf::Ctx& c, const std::string& nm, bool expl, std::shared_ptr<CmpHub> h = std::make_shared<CmpHub>())
+      : hub(std::move(h)), ctx(c), name(nm), explicit_ids(expl) {}
   Driver(const Driver&) = delete;
 
   int n() const { return int(cid.size()); }
@@ -319,8 +369,9 @@ struct Driver {
   // how: 0 default constructor, 1 reserving constructor, 2 constructor from boundaries (only when `simplicial`)
   void build(const Model& md, int how, int reserve = -1) {
     if (reserve < 0) reserve = md.n() + 2;
-    std::function<bool(U, U)> bc = [this](U a, U b) { return cmp_birth(a, b); };
-    std::function<bool(U, U)> dc = [this](U a, U b) { return cmp_death(a, b); };
+    std::shared_ptr<CmpHub> h = hub;
+    std::function<bool(U, U)> bc = [h](U a, U b) { return h->current ? static_cast<Driver*>(h->current)->cmp_birth(a, b) : false; };
+    std::function<bool(U, U)> dc = [h](U a, U b) { return h->current ? static_cast<Driver*>(h->current)->cmp_death(a, b) : false; };
     if (how == 2) {
       std::vector<std::vector<U> > cols;
       for (int p = 0; p < md.n(); ++p) {
@@ -357,7 +408,7 @@ struct Driver {
     Model part;
     for (int p = 0; p < md.n(); ++p) {
       part.f.push_back(md.f[size_t(p)]);
-      insert(part, explicit_ids ? unsigned((p * 7 + 1) % 3) : 0u, p % 2 == 0);
+      insert(part, (explicit_ids && !aligned_build) ? unsigned((p * 7 + 1) % 3) : 0u, p % 2 == 0);
     }
   }
 
@@ -672,6 +723,7 @@ struct Driver {
     std::ostringstream raw;
     cmp_ref = &rs;
     cmp_problem.clear();
+    hub->current = this;
     if constexpr (pos_api) {
       bool r = z1 ? m->vine_swap_with_z_eq_1_case(U(i)) : m->vine_swap(U(i));
       out.kept = r;
@@ -866,7 +918,9 @@ void run(vf::Tape& t, vf::Ctx& ctx) {
   bool explicit_ids = !t.chance(3, 4);
   int how = int(t.weighted({3, 1, 3}));
   int n0 = int(t.below(13));
-  bool rows_pos = O::is_of_boundary_type && ctx.excluded("C06-ru-explicit-id-u-rows");
+  const bool f2 = O::is_of_boundary_type && ctx.excluded("C06-ru-explicit-id-u-rows");
+  const bool f2_narrow = f2 && !O::has_removable_columns;  // see Driver::aligned_build
+  bool rows_pos = f2 && !f2_narrow;
   if (rows_pos && explicit_ids) {
     explicit_ids = false;
     ctx.hit("excluded:C06-ru-explicit-id-u-rows");
@@ -922,14 +976,16 @@ void run(vf::Tape& t, vf::Ctx& ctx) {
   }
 
   trace(ctx, printed);
-  std::unique_ptr<D> A(new D(ctx, "A", explicit_ids)), F;
+  std::shared_ptr<CmpHub> hub = std::make_shared<CmpHub>();
+  std::unique_ptr<D> A(new D(ctx, "A", explicit_ids, hub)), F;
   A->rows_are_positions = rows_pos;
+  A->aligned_build = f2_narrow;
   if (A->need_cmp) A->cmp_documented = false;  // since fix 5a1d2709b the documentation states MatIdx, which is what the code passes
   A->build(md, how, reserve);
   RefState rs = reference(md);
   A->check_full(md, rs, "after construction");
 
-  bool swapped = false, removal_after_swap = false, pairing_change = false;
+  bool swapped = false, removal_after_swap = false, pairing_change = false, copied = false, swap_after_copy = false;
   int last_swap = -1;
   int steps = 0;
   const bool f3 = O::is_of_boundary_type && ctx.excluded("C06-ru-removal-stale-u");
@@ -959,6 +1015,21 @@ void run(vf::Tape& t, vf::Ctx& ctx) {
     ++steps;
     unsigned op = opc - 1;
     bool full = t.chance(1, 3);
+    // copies / assignments / swap of the two matrices (only while both exist): sub-choice of the "fresh matrix" code when F
+    // is alive; option sets without removable columns use their idle removal codes for it as well (or to create F)
+    int copy_op = 0;
+    constexpr bool removable = D::can_remove_last || D::can_remove_max1 || D::can_remove_max2;
+    if (!removable && (op == 3 || op == 4 || op == 6)) {
+      if (!F) {
+        op = 5;
+      } else {
+        copy_op = 1 + int(t.below(5));
+        op = 7;
+      }
+    } else if (op == 5 && F) {
+      copy_op = int(t.below(6));  // 0: a new fresh matrix replaces F
+      if (copy_op != 0) op = 7;
+    }
     std::ostringstream when;
     when << "after step " << steps;
     bool did = false;
@@ -976,6 +1047,10 @@ void run(vf::Tape& t, vf::Ctx& ctx) {
         bool guard = ctx.excluded("C06-ru-pivot-map-size");
         auto admissible = [&](int cand) {
           if (!md.swappable(cand)) return false;
+          if (f2_narrow && !(A->swap_rows_aligned(cand) && (!F || F->swap_rows_aligned(cand)))) {
+            ctx.hit("excluded:C06-ru-explicit-id-u-rows");
+            return false;
+          }
           if (guard && !(A->swap_in_pmap(cand) && (!F || F->swap_in_pmap(cand)))) {
             ctx.hit("excluded:C06-ru-pivot-map-size");
             return false;
@@ -1052,6 +1127,7 @@ void run(vf::Tape& t, vf::Ctx& ctx) {
           rs = rs2;
           last_swap = i;
           swapped = true;
+          if (copied) swap_after_copy = true;
           did = true;
         }
       }
@@ -1215,12 +1291,39 @@ void run(vf::Tape& t, vf::Ctx& ctx) {
                << (how2 == 2 ? "constructor from boundaries" : (how2 == 1 ? "reserve + insert_boundary" : "insert_boundary"))
                << ")\n";
       trace(ctx, printed);
-      F.reset(new D(ctx, "F", false));
+      F.reset(new D(ctx, "F", false, hub));
       F->rows_are_positions = rows_pos;
       if (F->need_cmp) F->cmp_documented = false;
       F->build(md, how2, reserve2);
       F->check_full(md, rs, when.str() + " (fresh)");
       ctx.hit("fresh");
+      full = true;
+      did = true;
+    }
+    if (op == 7) {
+      static const char* const kCopyName[] = {"", "swap(A, F)", "A = F (copy assignment)", "F = A (copy assignment)",
+                                              "A = std::move(copy of F)", "F replaced by a copy-constructed copy of A"};
+      static const char* const kCopyHit[] = {"", "copy:swap", "copy:A=F", "copy:F=A", "copy:A=move", "copy:F=copy-ctor(A)"};
+      ctx.desc << steps << ": " << kCopyName[copy_op] << "\n";
+      trace(ctx, printed);
+      if (copy_op == 1) {
+        D::swap_matrices(*A, *F);
+      } else if (copy_op == 2) {
+        A->copy_assign_from(*F);
+      } else if (copy_op == 3) {
+        F->copy_assign_from(*A);
+      } else if (copy_op == 4) {
+        A->move_assign_from_copy_of(*F);
+      } else {
+        std::unique_ptr<D> G(new D(ctx, "F", false, hub));
+        G->rows_are_positions = A->rows_are_positions;
+        G->aligned_build = A->aligned_build;
+        G->cmp_documented = A->cmp_documented;
+        G->copy_construct_from(*A);
+        F = std::move(G);
+      }
+      ctx.hit(kCopyHit[copy_op]);
+      copied = true;
       full = true;
       did = true;
     }
@@ -1238,6 +1341,8 @@ void run(vf::Tape& t, vf::Ctx& ctx) {
   if (swapped) ctx.hit("case:with-swap");
   if (removal_after_swap) ctx.hit("case:removal-after-swap");
   if (pairing_change) ctx.hit("case:pairing-change");
+  if (copied) ctx.hit("case:copy-or-swap-of-matrices");
+  if (swap_after_copy) ctx.hit("case:transposition-after-copy");
   if (pairing_change && (removal_after_swap || !(D::can_remove_last || D::can_remove_max1 || D::can_remove_max2))) ctx.mark_nontrivial();
 }
 
